@@ -617,6 +617,10 @@ func runPersistCase(c pcase) presult {
 				// earliest point at which the real write callback can start
 				res.Ev = append(res.Ev, aEvent{E: "wBegin", Path: e.Path, Content: fsx.onDisk(e.Path, e.G)})
 			}
+		case "start":
+			if fsx != nil && c.NoPP { // no post-processor: the write callback can start right away
+				res.Ev = append(res.Ev, aEvent{E: "wBegin", Path: e.Path, Content: fsx.onDisk(e.Path, e.G)})
+			}
 		case "writeDone":
 			if fsx != nil { // the real write callback has returned
 				res.Ev = append(res.Ev, aEvent{E: "wEnd", Path: e.Path, OK: e.G >= 1 && e.G <= c.N && c.Fault[e.G-1] != "wr"})
